@@ -1155,4 +1155,139 @@ func runC02R5(c *Ctx) {
 
 	// ---------- R7 a handle request is answered with a reply legal for *it*, whatever the handle was opened for ----------
 	checkHandleRequestMatch(c, "R7")
+
+	// ---------- R8 a response handed to the sender is written unless the transport is dead ----------
+	checkSendFailsOnlyWithTransport(c, "R8")
+	// ---------- R2 (extension) response objects are private to their request ----------
+	checkResponseObjectsPrivate(c, "R2")
+}
+
+// checkSendFailsOnlyWithTransport (C02.R8): maybeSendPackets pops the request/response pair whether or not the send
+// succeeded, which is right as long as a failed send means a dead transport.  sendPacket must therefore fail only when
+// the marshaller or the transport's Write failed: every non-nil error it returns is selected under `err != nil` of one
+// of those calls.  A refusal of its own (a size check, say) would make a reply vanish while later ones keep flowing.
+func checkSendFailsOnlyWithTransport(c *Ctx, rule string) {
+	p := c.P
+	fn := p.Func("sendPacket")
+	if fn == nil {
+		c.missing(rule, "sendPacket")
+		return
+	}
+	bad := ""
+	n := 0
+	for _, rl := range returnLeaves(fn, 0) {
+		if isNilConst(rl.v) {
+			continue
+		}
+		n++
+		justified := false
+		for cv, truth := range edgeConds(rl.block, rl.pred) {
+			b, ok := cv.(*ssa.BinOp)
+			if !ok || !isNilConst(b.Y) || !((b.Op == token.NEQ && truth) || (b.Op == token.EQL && !truth)) {
+				continue
+			}
+			for _, l := range leavesOf(b.X) {
+				if l.Kind == leafCallResult {
+					nm := calleeName(l.Call)
+					if nm == "marshalPacket" || nm == "MarshalBinary" || nm == "Write" {
+						justified = true
+					}
+				}
+			}
+		}
+		if !justified {
+			bad = p.Pos(rl.block.Instrs[len(rl.block.Instrs)-1].Pos())
+		}
+	}
+	c.check(bad == "" && n >= 2, rule, "sendPacket fails only when marshalling or the transport fails", p.Pos(fn.Pos()), fmt.Sprintf("%d error returns, each under a failed marshal or Write", n),
+		"sendPacket can refuse a packet for a reason of its own (at "+bad+"): the packet manager drops the response and carries on, so that request is never answered while later ones are")
+}
+
+// freshResult: does every successful return of fn hand out an object allocated during that call (directly or by a
+// callee with the same property)?
+func (p *Program) freshResult(fn *ssa.Function, idx, depth int) bool {
+	if fn == nil || fn.Blocks == nil || depth > 4 {
+		return false
+	}
+	leaves := returnLeaves(fn, idx)
+	if len(leaves) == 0 {
+		return false
+	}
+	for _, rl := range leaves {
+		v := rl.v
+		if mi, ok := v.(*ssa.MakeInterface); ok {
+			v = mi.X
+		}
+		switch x := v.(type) {
+		case *ssa.Const:
+			if x.Value == nil {
+				continue
+			}
+			return false
+		case *ssa.Alloc:
+			continue
+		case *ssa.Call:
+			if !p.freshResult(x.Call.StaticCallee(), 0, depth+1) {
+				return false
+			}
+		case *ssa.Extract:
+			call, ok := x.Tuple.(*ssa.Call)
+			if !ok || !p.freshResult(call.Call.StaticCallee(), x.Index, depth+1) {
+				return false
+			}
+		default:
+			return false
+		}
+	}
+	return true
+}
+
+// checkResponseObjectsPrivate (C02.R2, extension): a response whose ID field is filled in after the object was obtained
+// from a helper is marshalled later, by the controller.  If the helper can hand the same object to two requests (a
+// cache), the second request's id overwrites the first's before it is written: the object must be allocated per call.
+func checkResponseObjectsPrivate(c *Ctx, rule string) {
+	p := c.P
+	n := 0
+	for _, fn := range p.LibFuncs() {
+		if outermost(fn).Package() != p.Sftp || !isServerSide(fn) {
+			continue
+		}
+		eachInstr(fn, func(in ssa.Instruction) {
+			st, ok := in.(*ssa.Store)
+			if !ok {
+				return
+			}
+			_, name, base, ok := fieldOf(st.Addr)
+			if !ok || name != "ID" {
+				return
+			}
+			var call *ssa.Call
+			idx := 0
+			switch x := base.(type) {
+			case *ssa.Call:
+				call = x
+			case *ssa.Extract:
+				call, _ = x.Tuple.(*ssa.Call)
+				idx = x.Index
+			}
+			if call == nil {
+				return
+			}
+			var callees []*ssa.Function
+			if f := call.Call.StaticCallee(); f != nil {
+				callees = []*ssa.Function{f}
+			} else {
+				callees = p.calleesAt(call)
+			}
+			for _, f := range callees {
+				if !inModule(f) {
+					continue
+				}
+				n++
+				c.check(p.freshResult(f, idx, 0), rule, "response object of "+fnName(f)+" is private to the request (id set in "+fnName(fn)+")", p.Pos(in.Pos()), "allocated during the call",
+					fnName(f)+" can return an object that was not allocated during the call (a cached or shared one); "+fnName(fn)+" writes the request id into it and the controller marshals it later: two requests sharing the object are both answered with the second id")
+			}
+		})
+	}
+	c.check(n >= 1, rule, "responses completed after a helper built them", "?", fmt.Sprintf("%d sites", n), "no such site found (statvfs expected)")
 }
